@@ -415,7 +415,7 @@ enum K {
 const INT_FIELDS: &[&str] = &["dim", "id", "num_edges", "dimension", "num_loops", "counter", "loop_number", "num_massive_edges"];
 const F64_FIELDS: &[&str] = &["dod", "cached_factor", "generalized_dod", "j_function", "weight"];
 const INT_METHODS: &[&str] = &["len", "get_dim", "get_id", "count_ones", "pow", "get_num_variables", "get_dimension"];
-const F64_METHODS: &[&str] = &["to_f64", "verif_as_f64"];
+const F64_METHODS: &[&str] = &["to_f64", "verif_as_f64", "compute_weight_sum"];
 const INT_TYPES: &[&str] = &["usize", "isize", "u8", "u16", "u32", "u64", "i8", "i16", "i32", "i64", "u128", "i128"];
 
 fn kind_of_type_str(t: &str) -> (K, K) {
@@ -1128,6 +1128,30 @@ impl<'s> Walker<'s> {
                         self.open(es, "verif_zip(", "R13");
                         self.replace((re, po_end), ", ", "R13");
                     }
+                    "product" | "sum" if matches!(&*m.receiver, MethodCall(inner) if inner.method == "map" && inner.args.len() == 1) => {
+                        // `.map(F).product::<f64>()` / `.map(F).sum()`  ->  verif_map_product(RECV, F) / verif_map_sum(RECV, F)
+                        if let MethodCall(inner) = &*m.receiver {
+                            let (is, _) = self.src.range(inner.span());
+                            let (_, ire) = self.src.range(inner.receiver.span());
+                            let ipo_end = self.src.off(inner.paren_token.span.open().end());
+                            let ipc_start = self.src.off(inner.paren_token.span.close().start());
+                            let w = if mname == "product" { "verif_map_product(" } else { "verif_map_sum(" };
+                            self.open(is, w, "R13");
+                            self.replace((ire, ipo_end), ", ", "R13");
+                            self.replace((ipc_start, ee), ")", "R13");
+                            self.walk_expr(&inner.receiver);
+                            for a in inner.args.iter() {
+                                self.walk_arg_hof(a, true);
+                            }
+                            self.depth -= 1;
+                            return;
+                        }
+                    }
+                    "map" if m.args.len() == 1 && self.ov.opts.get("wrap_map").map(|v| v == "on").unwrap_or(false) => {
+                        // a `.map(F)` that is consumed later (e.g. by a `for`): verif_map(RECV, F)
+                        self.open(es, "verif_map(", "R13");
+                        self.replace((re, po_end), ", ", "R13");
+                    }
                     "collect_vec" | "collect" | "unzip" => {
                         // `.map(F).collect_vec()` / `.map(F).unzip()`  ->  verif_map_collect(RECV, F) / verif_map_unzip(RECV, F)
                         if let MethodCall(inner) = &*m.receiver {
@@ -1306,6 +1330,15 @@ impl<'s> Walker<'s> {
             if hof && p.path.segments.len() >= 2 {
                 let last = p.path.segments.last().unwrap().ident.to_string();
                 let prev = p.path.segments[p.path.segments.len() - 2].ident.to_string();
+                if last.chars().next().map(|c| c.is_lowercase()).unwrap_or(false) && prev.chars().next().map(|c| c.is_uppercase()).unwrap_or(false) {
+                    // R4b: an associated function used as a function value: eta-expanded, carrying the function's own contract
+                    if let Some(rt) = self.ov.opts.get("eta_ret") {
+                        let r = self.src.range(a.span());
+                        let txt = self.src.text[r.0..r.1].to_string();
+                        self.replace(r, &format!("|e_arg| -> (o_arg: {}) requires call_requires({}, (e_arg,)) ensures call_ensures({}, (e_arg,), o_arg) {{ {}(e_arg) }}", rt, txt, txt, txt), "R4");
+                        return;
+                    }
+                }
                 if last.chars().next().map(|c| c.is_uppercase()).unwrap_or(false)
                     && prev.chars().next().map(|c| c.is_uppercase()).unwrap_or(false)
                 {
